@@ -38,7 +38,9 @@ func init() {
 			ruleRefusedPreflights(c, "R5")
 			ruleSummaryRebuilt(c, "R6")
 			ruleHeaderShortcut(c, "R7")
+			ruleGroupOptionOrder(c, "R8")
 			ruleSummaryByBuilder(c, "R6b")
+			ruleCORSOptionPlumbing(c, "R9")
 		},
 	})
 	register(&Spec{
@@ -54,7 +56,10 @@ func init() {
 			ruleCorsAlwaysOnServed(c, "R5")
 			ruleGrantComplete(c, "R6")
 			ruleSummaryRebuilt(c, "R7")
+			ruleGroupOptionOrder(c, "R8")
+			ruleCredentials(c, "R9")
 			ruleSummaryByBuilder(c, "R7b")
+			ruleCORSOptionPlumbing(c, "R10")
 		},
 	})
 }
@@ -329,6 +334,9 @@ func ruleOriginGrant(c *Ctx, rule string) {
 			lf := lf
 			var guard func(b *ssa.BasicBlock, succ int) bool
 			desc := ""
+			if done := originGrantThroughHelper(c, rule, hw, lf.v, lf.edge); done {
+				continue
+			}
 			if s, ok := strConst(lf.v); ok && s == "*" {
 				desc = "const:*"
 				guard = func(b *ssa.BasicBlock, succ int) bool {
@@ -362,6 +370,96 @@ func ruleOriginGrant(c *Ctx, rule string) {
 			}
 		}
 	}
+}
+
+// originGrantThroughHelper: the granted value is one result of a helper with several results — `v, ok := c.allowed(r)`.
+// Every return of the helper is a leaf: it is skipped when a boolean sibling result that the caller requires to be
+// true before the write is the constant false there; '*' must be returned only over the any-origin edge inside the
+// helper; the request's Origin only behind its membership test, inside the helper or as that required sibling.
+func originGrantThroughHelper(c *Ctx, rule string, hw *headerWrite, v ssa.Value, edge func(b *ssa.BasicBlock, succ int) bool) bool {
+	ex, ok := v.(*ssa.Extract)
+	if !ok {
+		return false
+	}
+	call, ok := ex.Tuple.(*ssa.Call)
+	if !ok {
+		return false
+	}
+	g := an.StaticCallee(&call.Call)
+	if g == nil || !an.InModule(g) || len(g.Blocks) == 0 || call.Parent() != hw.f {
+		return false
+	}
+	g = an.Origin(g)
+	// sibling results the caller requires to be true
+	required := map[int]bool{}
+	for _, ref := range *call.Referrers() {
+		sib, ok := ref.(*ssa.Extract)
+		if !ok || sib.Index == ex.Index || !isBoolType(sib.Type()) {
+			continue
+		}
+		q := &an.Query{BlockEdge: func(b *ssa.BasicBlock, succ int) bool {
+			return edgeHas(b, succ, func(cond ssa.Value, truth bool) bool { return cond == ssa.Value(sib) && truth })
+		}}
+		if edge != nil {
+			q.TargetEdge = edge
+		} else {
+			q.Target = func(in ssa.Instruction) bool { return in == hw.in }
+		}
+		if q.Search(an.After(call)) == nil {
+			required[sib.Index] = true
+		}
+	}
+	for ri, r := range an.Returns(g) {
+		r := r
+		if ex.Index >= len(r.Results) {
+			return false
+		}
+		dead := false
+		for j := range required {
+			if k, isC := r.Results[j].(*ssa.Const); isC && k.Value != nil && k.Value.ExactString() == "false" {
+				dead = true
+			}
+		}
+		if dead {
+			continue
+		}
+		rv := r.Results[ex.Index]
+		within := func(guard func(b *ssa.BasicBlock, succ int) bool) []an.Point {
+			return (&an.Query{BlockEdge: guard, Target: func(in ssa.Instruction) bool { return in == ssa.Instruction(r) }}).Search(an.Entry(g))
+		}
+		construct := fmt.Sprintf("write:%s/value:result-of:%s/return#%d", hACAO, an.FuncKey(g), ri)
+		switch {
+		case func() bool { s, ok := strConst(rv); return ok && s == "*" }():
+			path := within(func(b *ssa.BasicBlock, succ int) bool {
+				return edgeHas(b, succ, func(cond ssa.Value, truth bool) bool { return an.AP(cond) == "recv.anyOrigins" && truth })
+			})
+			o := c.R.Add(rule, c.fk(hw.f), construct+"/const:*", c.pos(hw.in), path == nil, ifelse(path == nil, "'*' is returned only over the any-origin edge", "'*' can be granted although '*' was not configured"))
+			if path != nil {
+				o.Path = c.P.PathString(path)
+			}
+		case isHeaderGet(rv, hOrig):
+			good := false
+			for j := range required {
+				if membershipSuccess(r.Results[j], true, rv, "recv.Origins") {
+					good = true
+				}
+			}
+			var path []an.Point
+			if !good {
+				path = within(func(b *ssa.BasicBlock, succ int) bool {
+					return edgeHas(b, succ, func(cond ssa.Value, truth bool) bool { return membershipSuccess(cond, truth, rv, "recv.Origins") })
+				})
+				good = path == nil
+			}
+			o := c.R.Add(rule, c.fk(hw.f), construct+"/request-origin", c.pos(hw.in), good, ifelse(good, "the request's Origin is handed out only together with (or behind) its membership test in the configured list, which the caller requires", "the request's Origin can be echoed without having passed the membership test in the configured list"))
+			if path != nil {
+				o.Path = c.P.PathString(path)
+			}
+		default:
+			c.R.Add(rule, c.fk(hw.f), construct, c.pos(hw.in), false, "Access-Control-Allow-Origin is written with a value that is neither the constant '*' nor the request's Origin header: "+c.O.Of(rv).String())
+		}
+	}
+	return true
 }
 
 // errorPropagated: every path from the call to a successful return passes the err == nil edge.
@@ -1291,4 +1389,9 @@ func sanitizeInstrs(c *Ctx, sanitize *ssa.Function, visit func(in ssa.Instructio
 		})
 	}
 	walk(sanitize, 0)
+}
+
+func isBoolType(t types.Type) bool {
+	b, ok := t.Underlying().(*types.Basic)
+	return ok && b.Info()&types.IsBoolean != 0
 }
